@@ -43,8 +43,32 @@ use crate::{
 /// Milliseconds since UNIX epoch, serializable replacement for Instant.
 pub type EpochMillis = u64;
 
+/// Verification-only clock override (exists only with `--cfg neumann_verif`).
+/// `set_now_ms(Some(ms))` freezes every clock read of the lock manager, the distributed
+/// transaction timeouts and the wait-for graph at `ms`; `None` restores the wall clock.
+#[cfg(neumann_verif)]
+pub mod verif_clock {
+    use std::sync::atomic::{AtomicU64, Ordering};
+
+    static OVERRIDE_MS: AtomicU64 = AtomicU64::new(u64::MAX);
+
+    pub fn set_now_ms(ms: Option<u64>) {
+        OVERRIDE_MS.store(ms.unwrap_or(u64::MAX), Ordering::SeqCst);
+    }
+
+    #[must_use]
+    pub fn get() -> Option<u64> {
+        let v = OVERRIDE_MS.load(Ordering::SeqCst);
+        (v != u64::MAX).then_some(v)
+    }
+}
+
 /// Get current time as epoch milliseconds.
 fn now_epoch_millis() -> EpochMillis {
+    #[cfg(neumann_verif)]
+    if let Some(ms) = verif_clock::get() {
+        return ms;
+    }
     #[allow(clippy::cast_possible_truncation)]
     let ms = SystemTime::now()
         .duration_since(UNIX_EPOCH)
